@@ -274,7 +274,11 @@ def _z3_decl_name_str(ctx, decl):
 def z3_solver_sat(solver, extra_constraints, occasion):
     log.debug("Doing a check! (%s)", occasion)
 
-    result = solver.check(extra_constraints)
+    try:
+        result = solver.check(extra_constraints)
+    except z3.Z3Exception as ze:
+        # some theory solvers give up by raising (the sequence solver: 'reached max unfolding')
+        raise ClaripyZ3Error("solver gave up: " + repr(ze)) from ze
 
     if result == z3.unknown:
         reason = solver.reason_unknown()
